@@ -75,7 +75,8 @@ func predicateCallConds(c Cond, depth int) []Cond {
 		return nil
 	}
 	g := call.Call.StaticCallee()
-	if g == nil || len(g.Blocks) == 0 || g.Object() == nil || g.Object().Exported() || !lastCtx.inModule(g) {
+	// (also an exported hand-written predicate of the module, e.g. a method on an entity: `sub.ShouldDeadLetter(n)`)
+	if g == nil || len(g.Blocks) == 0 || g.Object() == nil || !lastCtx.inModule(g) || lastCtx.EntShape().isGenerated(g) {
 		return nil
 	}
 	res := g.Signature.Results()
